@@ -1,5 +1,6 @@
 import DEvo.Opt.Optimize
 import DEvo.Generated.Tables
+import DEvo.Run.Merge
 import DEvo.Run.Load
 
 /-! # C14 — the SQL preview is exactly what an execution would run; output is deterministic -/
@@ -123,5 +124,39 @@ theorem C14_cex_execution_loads_default_file :
     previewLoad "archive" es = [.sql "idx" "CREATE INDEX b"] ∧
     executeLoad false "archive" es = [.sql "idx" "CREATE INDEX a"] := by
   decide
+
+/-! ## consecutive graph nodes of one kind become ONE executed batch (`merge_dicts`) -/
+
+open DEvo.Run in
+/-- **the executed batch lists a task's evolutions in the order of the graph nodes they came from** (which
+is the order of the app's SEQUENCE, C09): folding any number of node infos into a batch, destination
+first, gives every task the concatenation of its evolutions in node order - the order the preview
+(generated from the SEQUENCE in one go) shows -/
+theorem C14_merged_batch_keeps_node_order (bs : List BatchInfo) : ∀ (b0 : BatchInfo) (task : String),
+    evolutionsOf (bs.foldl (mergeBatch true) b0).tasks task =
+      evolutionsOf b0.tasks task ++
+        bs.flatMap (fun b => (b.tasks.filter (fun kv => kv.1 == task)).flatMap (·.2.evolutions)) := by
+  induction bs with
+  | nil => intro b0 task; simp
+  | cons b rest ih =>
+    intro b0 task
+    rw [List.foldl_cons, ih]
+    simp [mergeBatch, evolutionsOf_fold, List.append_assoc]
+
+/-- `merge_dicts` appends the source's list to the destination's (read by the translator on every run) -/
+theorem C14_source_merge_dest_first : DEvo.Generated.mergeListsDestFirst = true := by decide
+
+/-- ... and `_build_batches` merges a node into the previous batch by exactly that call, destination =
+the batch so far (read by the translator on every run) -/
+theorem C14_source_batch_merge_call :
+    DEvo.Generated.batchMergeBody = ["merge_dicts(prev_batch_info, batch_info)"] := by decide
+
+open DEvo.Run in
+/-- with the operands the other way round a later evolution is executed before an earlier one -/
+theorem C14_cex_source_first :
+    evolutionsOf (mergeBatch false ⟨[("vapp", ⟨["e1"], ["AddField b"]⟩)], []⟩
+                                   ⟨[("vapp", ⟨["e2"], ["AddField c"]⟩)], ["lapp"]⟩).tasks "vapp" = ["e2", "e1"] ∧
+    evolutionsOf (mergeBatch true ⟨[("vapp", ⟨["e1"], ["AddField b"]⟩)], []⟩
+                                  ⟨[("vapp", ⟨["e2"], ["AddField c"]⟩)], ["lapp"]⟩).tasks "vapp" = ["e1", "e2"] := by decide
 
 end DEvo.Props.C14
